@@ -34,6 +34,7 @@ type CallEvent struct {
 	Args   []Term   // receiver first for invoke-mode calls
 	Res    []Term
 	ResTys []types.Type
+	ArgTys []types.Type
 	Seq    int
 }
 
